@@ -65,6 +65,7 @@ open Threads.RCache
 
 def parseKind (s : String) : Option Kind :=
   if s = "r" then some .raw else
+  if s = "m" then some .missing else
   match s.splitOn ":" with
   | ["v", ds] => (natList? ds).map .virt
   | _ => none
